@@ -136,7 +136,12 @@ TraceStim ==
 TraceInternal ==
   /\ AtLine /\ (Line.k = "obs" \/ (Line.k = "stim" /\ Line.racy))
   /\ Internal
-  /\ PrefixMatches(out', ObsLine.ev)
+  \* `out` grows by at most one event per step and the earlier ones were
+  \* checked when they were appended: only the new one needs checking
+  /\ \/ out' = out
+     \/ /\ out' # out
+        /\ Len(out') <= Len(ObsLine.ev)
+        /\ EvMatches(out'[Len(out')], ObsLine.ev[Len(out')])
   /\ UNCHANGED <<l, target>>
 
 TraceTime ==
@@ -146,7 +151,7 @@ TraceTime ==
 
 TraceObs ==
   /\ AtLine /\ Line.k = "obs" /\ Settled
-  /\ Len(out) = Len(Line.ev) /\ PrefixMatches(out, Line.ev)
+  /\ Len(out) = Len(Line.ev)
   /\ now = Line.t
   /\ out' = <<>>
   /\ l' = l + 1
